@@ -148,7 +148,11 @@ func init() {
 					} else {
 						b = w.Extra[0]
 					}
-					_, cas, err := coll(b, NameA).GetRaw(parts[1])
+					d, err := rosmar.VerifDumpAll(b)
+					var cas uint64
+					if r := rowsOf(d)["sc.A/"+parts[1]]; r != nil {
+						cas = r.Cas
+					}
 					if err != nil || cas != m {
 						vs = append(vs, Violation{Prop: "C04", Op: name, Pre: "sched", Field: "later-write-smaller-cas", Detail: fmt.Sprintf("key %s: stored CAS %d (%v) but a write to it was stamped %d", k, cas, err, m)})
 					}
